@@ -248,6 +248,8 @@ static std::vector<Plan> c18_scenarios(bool thorough) {
     out.push_back(c);
     return out;
 }
+struct ChildOut { std::string cls, detail; uint64_t hash = 0; int status = 0; bool crashed = false; std::string crash_text; };
+static ChildOut run_in_child(const Plan &p, const std::string &checkprop);
 static std::vector<Plan> g_c18_variants;
 static void build_c18_variants(const std::string &tier) {
     if (!g_c18_variants.empty()) return;
@@ -266,6 +268,10 @@ static void build_c18_variants(const std::string &tier) {
                     }
             continue;
         }
+        // The fault-free pass is executed in this process to count allocations and transmits per request.  Should the code under test
+        // crash on it, do it in a child first: the scenario then stays in the list on its own (a worker meets the crash, the driver
+        // classifies and reports it) instead of taking the driver down.
+        { ChildOut probe = run_in_child(base, "C18"); if (probe.crashed) { g_c18_variants.push_back(base); continue; } }
         RunResult rb = run_world(base, "NONE", false);
         g_c18_variants.push_back(base); // fault-free pass with every oracle on
         int reset_index = -1;
@@ -333,7 +339,6 @@ static const Known *match_known(const std::vector<Known> &ks, const std::string 
 }
 
 // ---------------------------------------------------------------- child execution of one plan (crash-safe)
-struct ChildOut { std::string cls, detail; uint64_t hash = 0; int status = 0; bool crashed = false; std::string crash_text; };
 static std::string g_tmpdir;
 static std::string classify_crash(const std::string &txt, std::string &detail) {
     // AddressSanitizer / UBSan report -> stable class
